@@ -4,6 +4,7 @@ Property theorems only; helper lemmas are in KVerif/Lemmas/Switch*.lean.
 -/
 import KVerif.Lemmas.SwitchChk
 import KVerif.Gen.Consts
+import KVerif.Model.Layout
 namespace KVerif.Switch
 
 /-- **eval_compile** (full).  For every key-match list `es` in which every operator has at least one
@@ -193,3 +194,97 @@ example : ∃ ops, compileTop sampleExpr = .ok ops := by
     Leaf.encode]
 
 end KVerif.Switch
+
+
+/-! ## Layout level: where `fork` and `switch` get their operands, and what is done with the result
+
+`Model/Layout.lean` transcribes `Layout::do_action`; the theorems below are about that transcription
+(tied to the code by the layout-level correspondence cases of this check and of C01/C04/LALL). -/
+namespace KVerif.L
+open KVerif.Switch (BExpr BrkFt denTop compileListAt evalOps MAX_BOOL_EXPR_DEPTH)
+
+/-- **fork_reads_active_keys** (full): the test the `Fork` arm makes is "some trigger key is among
+the key codes the layout currently reports" — `Layout::keycodes`, i.e. every key state, whether a
+physical key, a one-shot, a virtual key or a running macro put it there. -/
+theorem fork_reads_active_keys (s : Layout) (triggers : List KeyCode) :
+    forkHit s triggers = true ↔ ∃ kc, kc ∈ s.keycodes ∧ kc ∈ triggers := by
+  unfold forkHit Layout.keycodes
+  simp only [List.any_eq_true, List.mem_filterMap]
+  constructor
+  · rintro ⟨st, hst, h⟩
+    cases st <;> simp_all [St.keycode] <;> exact ⟨_, ⟨_, hst, rfl⟩, h⟩
+  · rintro ⟨kc, ⟨st, hst, hk⟩, ht⟩
+    refine ⟨st, hst, ?_⟩
+    cases st <;> simp_all [St.keycode]
+
+/-- **fork_takes_right_iff** (full): `fork` performs its right action iff a trigger key is active,
+its left action otherwise — and nothing else (the only other effect is that the fork becomes the
+action `rpt` repeats). -/
+theorem fork_takes_right_iff (fuel : Nat) (s : Layout) (l r : Action) (triggers : List KeyCode)
+    (coord : Coord) (delay : Nat) (os : Bool) (ls : List Nat) :
+    dispatch (fuel + 1) s (.fork l r triggers) coord delay os ls =
+      (match doAction fuel s (if (∃ kc, kc ∈ s.keycodes ∧ kc ∈ triggers) then r else l) coord delay false ls with
+       | .error c => .error c
+       | .ok (s', cu) => .ok ({ s' with rptAction := some (.fork l r triggers) }, cu)) := by
+  have h := fork_reads_active_keys s triggers
+  by_cases hh : forkHit s triggers = true
+  · have : ∃ kc, kc ∈ s.keycodes ∧ kc ∈ triggers := h.mp hh
+    simp only [dispatch, hh, this, if_true]
+    rfl
+  · have : ¬ ∃ kc, kc ∈ s.keycodes ∧ kc ∈ triggers := fun e => hh (h.mpr e)
+    simp only [dispatch, hh, this, if_false]
+    rfl
+
+/-- **switch_reads_state** (full): the operands `switch` evaluates its conditions on are the
+layout's own state at that moment: active keys = `Layout::keycodes`, active inputs = the coordinates
+of the states, the two 8-deep histories, the active layers in lookup order and the base layer. -/
+theorem switch_reads_state (s : Layout) (order : List Nat) :
+    (switchEnv s order).activeKeys = s.keycodes ∧
+    (switchEnv s order).activeCoords = s.states.filterMap St.coord ∧
+    (switchEnv s order).histKeys = s.histKeys ∧ (switchEnv s order).histCoords = s.histInputs ∧
+    (switchEnv s order).layers = order ∧ (switchEnv s order).defaultLayer = s.defaultLayer % 65536 :=
+  ⟨rfl, rfl, rfl, rfl, rfl, rfl⟩
+
+/-- the actions of the cases that fire, top to bottom; `break` stops -/
+def specActions (env : Switch.Env) : List (List BExpr × Action × Bool) → List Action
+  | [] => []
+  | (es, a, brk) :: rest =>
+    if denTop env es then (if brk then [a] else a :: specActions env rest) else specActions env rest
+
+/-- **switch_actions_spec** (full): run over parser-compiled cases, the case iterator the `Switch`
+arm drains yields exactly the actions of the cases whose written condition is true of the state, in
+order, up to and including the first firing `break`. -/
+theorem switch_actions_spec (env : Switch.Env) (cases : List (List BExpr × Action × Bool))
+    (h : ∀ c ∈ cases, BExpr.NEList c.1 ∧ BExpr.InRangeList c.1 ∧
+      BExpr.depthList c.1 ≤ MAX_BOOL_EXPR_DEPTH ∧ BExpr.EndsOKList 0 c.1) :
+    switchActions (fun ops => evalOps ops env) (cases.map fun c => (compileListAt 0 c.1, c.2)) =
+      .ok (specActions env cases) := by
+  induction cases with
+  | nil => rfl
+  | cons c rest ih =>
+    obtain ⟨es, a, brk⟩ := c
+    obtain ⟨h1, h2, h3, h4⟩ := h (es, a, brk) (by simp)
+    have ihr := ih (fun c hc => h c (by simp [hc]))
+    simp only [List.map_cons, switchActions, specActions, Switch.eval_compile es env h1 h2 h3 h4]
+    cases hden : denTop env es <;> cases brk <;> simp [ihr]
+
+/-- pushing actions onto the 8-slot action queue, in order (the oldest entry is dropped when full) -/
+def queueAll (coord : Coord) (aq : List (Coord × Nat × Action)) (acs : List Action) : List (Coord × Nat × Action) :=
+  acs.foldl (fun aq a => (pushBackWrap ACTION_QUEUE_LEN aq (coord, 0, a)).1) aq
+
+/-- **switch_queues_firing_actions** (full): the `Switch` arm hands every firing case's action, in
+order, to the action queue (8 slots, the oldest is dropped when more are pushed), evaluated on the
+state at that moment; it changes nothing else. -/
+theorem switch_queues_firing_actions (fuel : Nat) (s : Layout) (order : List Nat)
+    (cases : List (List BExpr × Action × Bool)) (coord : Coord) (delay : Nat) (os : Bool) (ls : List Nat)
+    (ho : s.transOrder = .ok order)
+    (h : ∀ c ∈ cases, BExpr.NEList c.1 ∧ BExpr.InRangeList c.1 ∧
+      BExpr.depthList c.1 ≤ MAX_BOOL_EXPR_DEPTH ∧ BExpr.EndsOKList 0 c.1) :
+    dispatch (fuel + 1) s (.switch (cases.map fun c => (compileListAt 0 c.1, c.2))) coord delay os ls =
+      .ok ({ s with actionQueue := queueAll coord s.actionQueue (specActions (switchEnv s order) cases) }, .noEvent) := by
+  simp only [dispatch, ho, switch_actions_spec (switchEnv s order) cases h, queueAll]
+
+example (s : Layout) : forkHit { s with states := [.fakeKey 42] } [42, 54] = true := by simp [forkHit]
+example (s : Layout) : forkHit { s with states := [.layerModifier 1 (0, 3)] } [42, 54] = false := by simp [forkHit]
+
+end KVerif.L
